@@ -113,6 +113,16 @@ def run(tier):
         plist.append({"name": "literals/%d" % (i // 250), "kind": "b", "lits": chunk, "steps": [("snip", "\n".join(lines) + "\n")],
                       "mods": [], "globals": [("h%d" % k, bits(v)) for k, v in enumerate(vals)],
                       "globals_f": [("h%d" % k, v) for k, v in enumerate(vals)], "budget": 2000000})
+    # ---- (b2) literals printed, several per function: each must print as the double its own text denotes (a constant
+    # table that merges 'nearly equal' numbers, or an equality with a tolerance, shows here and only here)
+    tiny = ["0", "0.0", "0.0000000000000001", "0.00000000000000015", "0.00000000000000005", "0.000000000000000000001", "0.00000000000000022", "0.0000000000000002220446049250313",
+            "0.0000000000000004", "1", "1.0000000000000002", "1.0000000000000004", "0.9999999999999999", "2", "2.0000000000000004", "0.1", "0.10000000000000002", "0.30000000000000004", "0.3"]
+    for i in range(40 if quick else 1000 * common.TS):
+        picks = [rng.choice(tiny) for _ in range(12)] + [str(rng.below(10 ** rng.range(1, 16)) / 10 ** rng.range(1, 22)).replace("e-", "") for _ in range(4)]
+        picks = [t for t in picks if "e" not in t and t.replace(".", "").isdigit()]
+        body = "\n".join("    print(%s);" % t for t in picks)
+        cmp_lines = "\n".join("print(%s == %s);" % (picks[k], picks[k + 1]) for k in range(0, len(picks) - 1, 3))
+        plist.append({"name": "printed-literals/%d" % i, "kind": "d", "steps": [("snip", "fn show() {\n%s\n}\nshow();\n%s\nprint(0.1 + 0.2 == 0.3);\n" % (body, cmp_lines))], "mods": []})
     # ---- (c)
     digit_strings = [str(n) for n in range(0, 100)] + ["%02d" % n for n in range(0, 10)] + ["0", "00", "007"]
     digit_strings += [str(rng.below(1000)) for _ in range(40 if quick else 900 * common.TS)]
